@@ -279,12 +279,12 @@ def RTree.fresh (support : List Nat) (nA : Nat) : RTree :=
     maxS := fun _ => 0, km := fun _ => 0, v := fun _ => 0, actV := fun _ => 0, best := fun _ => 0,
     aN := fun _ _ => 0, aV := fun _ _ => 0, stops := fun _ => 0, nodes := [[]], margin := none }
 
-def noteMargin (t : RTree) (x y : Rat) : RTree :=
+def noteMargin (mg : Option Rat) (x y : Rat) : Option Rat :=
   let d := if x < y then y - x else x - y
-  if d == 0 then t else
-  match t.margin with
-  | none => { t with margin := some d }
-  | some e => if d < e then { t with margin := some d } else t
+  if d == 0 then mg else
+  match mg with
+  | none => some d
+  | some e => if d < e then some d else mg
 
 /-- `BeliefNode<false>::updateBeliefAndKnowledge(s)` (`operator[]` on `maxS_` may create a zero entry) -/
 def RTree.updBK (t : RTree) (p : Path) (s : Nat) : RTree :=
@@ -309,50 +309,66 @@ def ruct (m : Mdl) (t : RTree) (p : Path) (a : Nat) : Bool :=
     | none => true
   else if t.aN p 0 = 0 then a == 0 else t.aN p a != 0
 
+/-- `simulate`, before the recursion: `b.N++`, child lookup / insertion of an empty `BNode`, particle and knowledge
+    update of the child.  Returns the tree and `newNode`. -/
+def rdown (t : RTree) (p : Path) (st : Step) : RTree × Bool :=
+  let t := { t with nN := upd t.nN p (t.nN p + 1) }
+  let child := p ++ [(st.a, st.o)]
+  let newNode := !(t.ex child)
+  let t := if newNode then { t with ex := upd t.ex child true, nodes := t.nodes ++ [child] } else t
+  (t.updBK child st.s1, newNode)
+
+/-- a visit that ends at the child as a leaf: `ot->second.N += 1` -/
+def rleaf (t : RTree) (child : Path) : RTree :=
+  { t with nN := upd t.nN child (t.nN child + 1), stops := upd t.stops child (t.stops child + 1) }
+
+/-- the mean / max bookkeeping of a belief node below the root after one of its actions was updated:
+    new `actionsV`, new `bestAction`, new comparison margin.  (`b.N == k_`: `actionsV = HUGE_VAL; bestAction = a`, then
+    `maxBeliefNodeUpdate` takes its `else if (a == bestAction)` branch and recomputes the maximum.) -/
+def rbook (k : Nat) (t : RTree) (p : Path) (a : Nat) (imm : Rat) : Rat × Nat × Option Rat :=
+  if k ≤ t.nN p then
+    if t.nN p = k then
+      let b := argmaxV (t.aV p) (t.nA p)
+      (t.aV p b, b, t.margin)
+    else
+      let mg := noteMargin t.margin (t.aV p a) (t.actV p)
+      if t.actV p ≤ t.aV p a then (t.aV p a, a, mg)
+      else if a = t.best p then
+        let b := argmaxV (t.aV p) (t.nA p)
+        (t.aV p b, b, mg)
+      else (t.actV p, t.best p, mg)
+  else (t.actV p + (imm - t.actV p) / ((t.nN p : Nat) : Rat), t.best p, t.margin)
+
+/-- `simulate`, after the recursion: action update, then (below the root) the bookkeeping of the node and the
+    datapoint transmitted upwards -/
+def rup (m : Mdl) (k : Nat) (t : RTree) (p : Path) (a depth : Nat) (imm : Rat) : RTree × Rat :=
+  let n := t.aN p a + 1
+  let t := { t with aN := upd t.aN p (updN (t.aN p) a n),
+                    aV := upd t.aV p (updN (t.aV p) a (t.aV p a + (imm - t.aV p a) / (n : Rat))) }
+  if depth = 0 then (t, 0) else
+  let b := rbook k t p a imm
+  let newV := m.gamma * b.1 + t.km p
+  ({ t with actV := upd t.actV p b.1, best := upd t.best p b.2.1, margin := b.2.2, v := upd t.v p newV },
+   ((t.nN p - 1 : Nat) : Rat) * (newV - t.v p) + newV)
+
 /-- `rPOMCP::simulate(node at p, s, depth)`; `k` is the threshold `k_` -/
 def rsim (m : Mdl) (H k : Nat) : Nat → RTree → Path → Nat → Nat → List Step → Option (RTree × Rat × List Step)
   | 0, _, _, _, _, _ => none
   | _+1, _, _, _, _, [] => none
   | fuel+1, t, p, s, depth, st :: log =>
     if st.s = s && decide (st.a < t.nA p) && m.valid st && ruct m t p st.a then
-      let a := st.a
-      let t := { t with nN := upd t.nN p (t.nN p + 1) }
-      let child := p ++ [(a, st.o)]
-      let newNode := !(t.ex child)
-      let t := if newNode then { t with ex := upd t.ex child true, nodes := t.nodes ++ [child] } else t
-      let t := t.updBK child st.s1
+      let child := p ++ [(st.a, st.o)]
+      let d := rdown t p st
       let r : Option (RTree × Rat × List Step) :=
-        if decide (depth + 1 < H) && !st.term && !newNode then
-          match t.alloc child (m.numA st.s1) with
+        if decide (depth + 1 < H) && !st.term && !d.2 then
+          match d.1.alloc child (m.numA st.s1) with
           | none => none
-          | some t => rsim m H k fuel t child st.s1 (depth + 1) log
+          | some t2 => rsim m H k fuel t2 child st.s1 (depth + 1) log
         else
-          let t := { t with nN := upd t.nN child (t.nN child + 1), stops := upd t.stops child (t.stops child + 1) }
-          some (t, if depth + 1 < H then 0 else t.km child, log)
+          some (rleaf d.1 child, if depth + 1 < H then 0 else (rleaf d.1 child).km child, log)
       match r with
       | none => none
-      | some (t, imm, log') =>
-        let n := t.aN p a + 1
-        let t := { t with aN := upd t.aN p (updN (t.aN p) a n),
-                          aV := upd t.aV p (updN (t.aV p) a (t.aV p a + (imm - t.aV p a) / (n : Rat))) }
-        if depth = 0 then some (t, 0, log') else
-        let t :=
-          if k ≤ t.nN p then
-            if t.nN p = k then
-              -- actionsV = HUGE_VAL, bestAction = a, then maxBeliefNodeUpdate: the `else if` branch recomputes
-              let b := argmaxV (t.aV p) (t.nA p)
-              { t with actV := upd t.actV p (t.aV p b), best := upd t.best p b }
-            else
-              let t := noteMargin t (t.aV p a) (t.actV p)
-              if t.actV p ≤ t.aV p a then { t with actV := upd t.actV p (t.aV p a), best := upd t.best p a }
-              else if a = t.best p then
-                let b := argmaxV (t.aV p) (t.nA p)
-                { t with actV := upd t.actV p (t.aV p b), best := upd t.best p b }
-              else t
-          else { t with actV := upd t.actV p (t.actV p + (imm - t.actV p) / ((t.nN p : Nat) : Rat)) }
-        let oldV := t.v p
-        let newV := m.gamma * t.actV p + t.km p
-        some ({ t with v := upd t.v p newV }, ((t.nN p - 1 : Nat) : Rat) * (newV - oldV) + newV, log')
+      | some (t3, imm, log') => some ((rup m k t3 p st.a depth imm).1, (rup m k t3 p st.a depth imm).2, log')
     else none
 
 def rrunSims (m : Mdl) (H k : Nat) : Nat → RTree → List Step → Option (RTree × List Step)
